@@ -72,6 +72,7 @@ type Frame struct {
 	params    []Val
 	rangeRet  *rangeRet // frame is a sync.Map.Range callback activation
 	specAddrs map[string]*Ptr
+	cellVars  map[string]bool
 	// contract scope (top-level frame only)
 	contract *Contract
 	specVars map[string]Val
@@ -226,6 +227,7 @@ func (st *State) clone() *State {
 		for k, v := range f.cut {
 			nf.cut[k] = v
 		}
+		nf.cellVars = f.cellVars // written once per name at its Alloc; shared read-only afterwards
 		if f.specAddrs != nil {
 			nf.specAddrs = map[string]*Ptr{}
 			for k, v := range f.specAddrs {
